@@ -11,20 +11,21 @@ variable {σ α β : Type}
 
 /-- `closed` flags of the outputs and the closer's list are only touched by the closer -/
 def SameClosing (p q : Pool σ α β) : Prop :=
-  q.toClose = p.toClose ∧ (∀ k, (q.outs k).closed = (p.outs k).closed) ∧ q.nW = p.nW ∧ q.gated = p.gated
+  q.toClose = p.toClose ∧ (∀ k, (q.outs k).closed = (p.outs k).closed) ∧ q.nW = p.nW ∧ q.gated = p.gated ∧
+    ∀ k, (q.outs k).cap = (p.outs k).cap
 
-theorem sameClosing_refl (p : Pool σ α β) : SameClosing p p := ⟨rfl, fun _ => rfl, rfl, rfl⟩
+theorem sameClosing_refl (p : Pool σ α β) : SameClosing p p := ⟨rfl, fun _ => rfl, rfl, rfl, fun _ => rfl⟩
 
 theorem sameClosing_setW (p : Pool σ α β) (i : Nat) (w : Worker σ α β) : SameClosing p (p.setW i w) :=
-  ⟨rfl, fun _ => rfl, rfl, rfl⟩
+  ⟨rfl, fun _ => rfl, rfl, rfl, fun _ => rfl⟩
 
 theorem sameClosing_pushOut (p : Pool σ α β) (i k : Nat) (v : β) : SameClosing p (p.pushOut i k v) := by
-  refine ⟨rfl, fun k' => ?_, rfl, rfl⟩
-  simp only [pushOut, upd]
-  split <;> simp_all
+  refine ⟨rfl, fun k' => ?_, rfl, rfl, fun k' => ?_⟩ <;>
+    (simp only [pushOut, upd]; split <;> simp_all)
 
 theorem SameClosing.trans {p q r : Pool σ α β} (h1 : SameClosing p q) (h2 : SameClosing q r) : SameClosing p r :=
-  ⟨h2.1.trans h1.1, fun k => (h2.2.1 k).trans (h1.2.1 k), h2.2.2.1.trans h1.2.2.1, h2.2.2.2.trans h1.2.2.2⟩
+  ⟨h2.1.trans h1.1, fun k => (h2.2.1 k).trans (h1.2.1 k), h2.2.2.1.trans h1.2.2.1, h2.2.2.2.1.trans h1.2.2.2.1,
+   fun k => (h2.2.2.2.2 k).trans (h1.2.2.2.2 k)⟩
 
 theorem workerNext_sameClosing (st : Stage σ α β) (p q : Pool σ α β) (i : Nat)
     (hq : q ∈ workerNext st p i) : SameClosing p q := by
@@ -39,7 +40,7 @@ theorem workerNext_sameClosing (st : Stage σ α β) (p q : Pool σ α β) (i : 
       · simp only [List.mem_singleton] at hq; subst hq; exact sameClosing_setW _ _ _
       · simp at hq
     | cons a rest =>
-      simp only [hb, List.mem_singleton] at hq; subst hq; exact ⟨rfl, fun _ => rfl, rfl, rfl⟩
+      simp only [hb, List.mem_singleton] at hq; subst hq; exact ⟨rfl, fun _ => rfl, rfl, rfl, fun _ => rfl⟩
   | calling s a =>
     simp only [hctl] at hq
     split at hq
@@ -58,7 +59,7 @@ theorem workerNext_sameClosing (st : Stage σ α β) (p q : Pool σ α β) (i : 
       simp only [hctl, List.mem_append] at hq
       rcases hq with hq | hq
       · split at hq
-        · simp only [List.mem_singleton] at hq; subst hq; exact ⟨rfl, fun _ => rfl, rfl, rfl⟩
+        · simp only [List.mem_singleton] at hq; subst hq; exact ⟨rfl, fun _ => rfl, rfl, rfl, fun _ => rfl⟩
         · split at hq
           · simp only [List.mem_singleton] at hq; subst hq
             exact (sameClosing_pushOut _ _ _ _).trans (sameClosing_setW _ _ _)
@@ -73,7 +74,7 @@ theorem workerNext_sameClosing (st : Stage σ α β) (p q : Pool σ α β) (i : 
       obtain ⟨k, v⟩ := x
       simp only [hctl] at hq
       split at hq
-      · simp only [List.mem_singleton] at hq; subst hq; exact ⟨rfl, fun _ => rfl, rfl, rfl⟩
+      · simp only [List.mem_singleton] at hq; subst hq; exact ⟨rfl, fun _ => rfl, rfl, rfl, fun _ => rfl⟩
       · split at hq
         · simp only [List.mem_singleton] at hq; subst hq
           exact (sameClosing_pushOut _ _ _ _).trans (sameClosing_setW _ _ _)
@@ -90,7 +91,7 @@ theorem handoff_sameClosing (p : Pool σ α β) (k i : Nat) (q : Pool σ α β) 
     | cons e rest =>
       simp only [hctl] at hq
       split at hq
-      · simp only [List.mem_singleton, Prod.mk.injEq] at hq; obtain ⟨rfl, _⟩ := hq; exact ⟨rfl, fun _ => rfl, rfl, rfl⟩
+      · simp only [List.mem_singleton, Prod.mk.injEq] at hq; obtain ⟨rfl, _⟩ := hq; exact ⟨rfl, fun _ => rfl, rfl, rfl, fun _ => rfl⟩
       · simp at hq
   | exiting s fin why =>
     cases fin with
@@ -99,7 +100,7 @@ theorem handoff_sameClosing (p : Pool σ α β) (k i : Nat) (q : Pool σ α β) 
       obtain ⟨k', v'⟩ := x
       simp only [hctl] at hq
       split at hq
-      · simp only [List.mem_singleton, Prod.mk.injEq] at hq; obtain ⟨rfl, _⟩ := hq; exact ⟨rfl, fun _ => rfl, rfl, rfl⟩
+      · simp only [List.mem_singleton, Prod.mk.injEq] at hq; obtain ⟨rfl, _⟩ := hq; exact ⟨rfl, fun _ => rfl, rfl, rfl, fun _ => rfl⟩
       · simp at hq
   | idle s => simp [hctl] at hq
   | calling s a => simp [hctl] at hq
@@ -113,24 +114,24 @@ theorem envNext_sameClosing (st : Stage σ α β) (p q : Pool σ α β) (m : Mov
     split at hq
     · simp only [List.mem_singleton, Prod.mk.injEq] at hq; obtain ⟨rfl, _⟩ := hq; exact sameClosing_refl _
     · split at hq <;>
-        (simp only [List.mem_singleton, Prod.mk.injEq] at hq; obtain ⟨rfl, _⟩ := hq; exact ⟨rfl, fun _ => rfl, rfl, rfl⟩)
+        (simp only [List.mem_singleton, Prod.mk.injEq] at hq; obtain ⟨rfl, _⟩ := hq; exact ⟨rfl, fun _ => rfl, rfl, rfl, fun _ => rfl⟩)
   | close j =>
     simp only [envNext] at hq
     split at hq <;>
-      (simp only [List.mem_singleton, Prod.mk.injEq] at hq; obtain ⟨rfl, _⟩ := hq; exact ⟨rfl, fun _ => rfl, rfl, rfl⟩)
+      (simp only [List.mem_singleton, Prod.mk.injEq] at hq; obtain ⟨rfl, _⟩ := hq; exact ⟨rfl, fun _ => rfl, rfl, rfl, fun _ => rfl⟩)
   | recv k =>
     simp only [envNext] at hq
     split at hq
     · simp only [List.mem_singleton, Prod.mk.injEq] at hq; obtain ⟨rfl, _⟩ := hq
-      refine ⟨rfl, fun k' => ?_, rfl, rfl⟩
-      simp only [upd]; split <;> simp_all
+      refine ⟨rfl, fun k' => ?_, rfl, rfl, fun k' => ?_⟩ <;>
+        (simp only [upd]; split <;> simp_all)
     · split at hq
       · simp only [List.mem_singleton, Prod.mk.injEq] at hq; obtain ⟨rfl, _⟩ := hq; exact sameClosing_refl _
       · simp only [List.mem_map, List.mem_flatMap, List.mem_range, Prod.exists, Prod.mk.injEq] at hq
         obtain ⟨q', v, ⟨i, _, hh⟩, rfl, _⟩ := hq
         exact handoff_sameClosing p k i q' v hh
   | cancel =>
-    simp only [envNext, List.mem_singleton, Prod.mk.injEq] at hq; obtain ⟨rfl, _⟩ := hq; exact ⟨rfl, fun _ => rfl, rfl, rfl⟩
+    simp only [envNext, List.mem_singleton, Prod.mk.injEq] at hq; obtain ⟨rfl, _⟩ := hq; exact ⟨rfl, fun _ => rfl, rfl, rfl, fun _ => rfl⟩
   | release i =>
     simp only [envNext] at hq
     split at hq <;>
@@ -144,7 +145,7 @@ def ClosedInv (closes : List Nat) (p : Pool σ α β) : Prop :=
 theorem closedInv_step (st : Stage σ α β) (closes : List Nat) {p q : Pool σ α β}
     (h : ClosedInv closes p) (hs : Step st p q) : ClosedInv closes q := by
   have same : SameClosing p q → ClosedInv closes q := by
-    intro ⟨h1, h2, _, _⟩ k hk
+    intro ⟨h1, h2, _, _, _⟩ k hk
     rcases h k hk with hk | hk
     · left; rw [h1]; exact hk
     · right; rw [h2]; exact hk
@@ -158,7 +159,7 @@ theorem closedInv_step (st : Stage σ α β) (closes : List Nat) {p q : Pool σ 
       · rename_i k rest hk
         split at hq
         · split at hq
-          · simp only [List.mem_singleton] at hq; subst hq; exact same ⟨rfl, fun _ => rfl, rfl, rfl⟩
+          · simp only [List.mem_singleton] at hq; subst hq; exact same ⟨rfl, fun _ => rfl, rfl, rfl, fun _ => rfl⟩
           · simp only [List.mem_singleton] at hq; subst hq
             intro k' hk'
             rcases h k' hk' with h' | h'
@@ -187,7 +188,8 @@ theorem all_closed_of_done {closes : List Nat} {p : Pool σ α β} (h : ClosedIn
 
 
 /-- the number of workers and the gate flag are configuration: no move changes them -/
-theorem step_cfg (st : Stage σ α β) {p q : Pool σ α β} (hs : Step st p q) : q.nW = p.nW ∧ q.gated = p.gated := by
+theorem step_cfg (st : Stage σ α β) {p q : Pool σ α β} (hs : Step st p q) :
+    q.nW = p.nW ∧ q.gated = p.gated ∧ ∀ k, (q.outs k).cap = (p.outs k).cap := by
   rcases hs with hq | ⟨m, o, hq⟩
   · simp only [procNext, List.mem_append, List.mem_flatMap, List.mem_range] at hq
     rcases hq with ⟨i, _, hq⟩ | hq
@@ -196,20 +198,29 @@ theorem step_cfg (st : Stage σ α β) {p q : Pool σ α β} (hs : Step st p q) 
       split at hq
       · simp at hq
       · split at hq
-        · split at hq <;> (simp only [List.mem_singleton] at hq; subst hq; exact ⟨rfl, rfl⟩)
+        · split at hq
+          · simp only [List.mem_singleton] at hq; subst hq; exact ⟨rfl, rfl, fun _ => rfl⟩
+          · simp only [List.mem_singleton] at hq; subst hq
+            refine ⟨rfl, rfl, fun k' => ?_⟩
+            simp only [upd]; split <;> simp_all
         · simp at hq
   · exact (envNext_sameClosing st p q m o hq).2.2
 
 theorem reachable_cfg {st : Stage σ α β} {p0 p : Pool σ α β} (hr : Reachable st p0 p) :
-    p.nW = p0.nW ∧ p.gated = p0.gated := by
+    p.nW = p0.nW ∧ p.gated = p0.gated ∧ ∀ k, (p.outs k).cap = (p0.outs k).cap := by
   induction hr with
-  | init => exact ⟨rfl, rfl⟩
-  | step _ hs ih => have := step_cfg st hs; exact ⟨this.1.trans ih.1, this.2.trans ih.2⟩
+  | init => exact ⟨rfl, rfl, fun _ => rfl⟩
+  | step _ hs ih =>
+    have := step_cfg st hs
+    exact ⟨this.1.trans ih.1, this.2.1.trans ih.2.1, fun k => (this.2.2 k).trans (ih.2.2 k)⟩
 
 theorem reachable_nW {st : Stage σ α β} {p0 p : Pool σ α β} (hr : Reachable st p0 p) : p.nW = p0.nW :=
   (reachable_cfg hr).1
 
 theorem reachable_gated {st : Stage σ α β} {p0 p : Pool σ α β} (hr : Reachable st p0 p) : p.gated = p0.gated :=
-  (reachable_cfg hr).2
+  (reachable_cfg hr).2.1
+
+theorem reachable_outCap {st : Stage σ α β} {p0 p : Pool σ α β} (hr : Reachable st p0 p) (k : Nat) :
+    (p.outs k).cap = (p0.outs k).cap := (reachable_cfg hr).2.2 k
 
 end Golem.Go.Pool
